@@ -472,6 +472,10 @@ void QXmppIncomingClient::onDigestReply()
         return;
     }
     reply->deleteLater();
+    // the stream may have been restarted (SASL state dropped) while the reply was pending
+    if (!d->saslServer) {
+        return;
+    }
 
     if (reply->error() == QXmppPasswordReply::TemporaryError) {
         warning(u"Temporary authentication failure for '%1' from %2"_s.arg(d->saslServer->username(), d->origin()));
@@ -518,6 +522,10 @@ void QXmppIncomingClient::onPasswordReply()
         return;
     }
     reply->deleteLater();
+    // the stream may have been restarted (SASL state dropped) while the reply was pending
+    if (!d->saslServer) {
+        return;
+    }
 
     // the approval belongs to the user the checker was asked about, not to whatever <auth/> came last
     const QString jid = u"%1@%2"_s.arg(reply->property("__sasl_user").toString(), d->domain);
